@@ -10,7 +10,8 @@ git -C $WT apply /verif/seeded/$SID/patch.diff || { echo "patch does not apply";
 for P in "$@"; do
   echo "=== $SID vs $P ($TIER)"
   VF_REPO=$WT ./check $P --tier $TIER ${ONLY:+--only $ONLY} > /tmp/try_${SID}_$P.log 2>&1; RC=$?
-  grep -E "^(VIOLATION|KNOWN|HARNESS)" /tmp/try_${SID}_$P.log | cut -c1-300 | head -5
+  grep -E "^VIOLATION" /tmp/try_${SID}_$P.log | cut -c1-300 | head -3
+  grep -E "^(KNOWN|HARNESS)" /tmp/try_${SID}_$P.log | cut -c1-300 | head -3
   grep -E "^$P " /tmp/try_${SID}_$P.log | cut -c1-200
   echo "exit=$RC"
 done
